@@ -92,7 +92,11 @@ def opSOfJson (j : Json) : Option OpS := do
   | "remove_constraint" => pure ⟨.removeUq, .named t (← getStr j "n")⟩
   | "add_fk" => pure ⟨.addFk, .fk t (getStrList j "cols") (← getStr j "reftable") (getStrList j "refcols")⟩
   | "remove_fk" => pure ⟨.removeFk, .fk t (getStrList j "cols") (← getStr j "reftable") (getStrList j "refcols")⟩
-  | _ => none
+  | _ =>
+    -- an op the model never emits (comment ops, ...): it still counts for quiet / converge and names its object
+    match getStr j "c" with
+    | some c => pure ⟨.other, .column t c⟩
+    | none => pure ⟨.other, .table t⟩
 
 def mutationOfJson (j : Json) : Option Mutation := do
   let m ← getStr j "m"
@@ -160,7 +164,7 @@ def handle (op : String) (j : Json) : Option Json :=
       let mp := G.tokenize mt
       some (obj [("itok", paramsToJson ip), ("mtok", paramsToJson mp),
                  ("cmp", Json.bool (G.compareType syn ext ip mp)),
-                 ("must", Json.bool (mustDiffer syn ip mp))])
+                 ("must", Json.bool (mustDiffer syn ip mp)), ("same", Json.bool (mustMatch syn ext ip mp))])
     | _, _ => some (errJ "bad-input")
   | "diff.type" =>
     match tyOfJson j with
